@@ -115,7 +115,8 @@ def load_one(lit: LineIterator, atom_columns=None) -> dict:
     data = {"title": title}
     # Initialize the arrays to be loaded from the XYZ file.
     for attrname, keyname, shapesuffix, dtype, _loadword, _dumpword in atom_columns:
-        array = np.zeros((natom, *shapesuffix), dtype=dtype)
+        # dtype=str would allocate strings of one character, which truncates longer words.
+        array = np.zeros((natom, *shapesuffix), dtype=object if dtype is str else dtype)
         if keyname is None:
             # Store the initial array as a normal attribute.
             data[attrname] = array
@@ -139,6 +140,13 @@ def load_one(lit: LineIterator, atom_columns=None) -> dict:
             # converted to the right format for IOData.
             for ifield in range(atom_array.size):
                 atom_array.flat[ifield] = loadword(words.pop(0))
+    # Convert columns of words into arrays of strings that are as wide as needed.
+    for attrname, keyname, _shapesuffix, dtype, _loadword, _dumpword in atom_columns:
+        if dtype is str:
+            if keyname is None:
+                data[attrname] = data[attrname].astype(str)
+            else:
+                data[attrname][keyname] = data[attrname][keyname].astype(str)
     return data
 
 
